@@ -340,6 +340,25 @@ def m_fract(ex, site, a):
     return z3.fpSub(RNE, x, z3.fpRoundToIntegral(z3.RTZ(), x))
 
 
+@model('f64::total_cmp')
+def m_total_cmp(ex, site, a):
+    """IEEE 754 totalOrder, as core implements it: the bit patterns compared as sign-magnitude integers (-0 < +0, NaNs at the
+    ends); NaN payloads are not distinguished here (canonical NaN)"""
+    from .models import ordering
+    def key(v):
+        v = deref(ex, v)
+        if not is_sym(v):
+            b = struct.unpack('<q', struct.pack('<d', float(v)))[0]
+            return b ^ (((b >> 63) & 0xFFFFFFFFFFFFFFFF) >> 1)
+        b = z3.fpToIEEEBV(v)
+        return b ^ z3.LShR(b >> 63, 1)
+    x, y = key(a[0]), key(a[1])
+    if not is_sym(x) and not is_sym(y): return ordering(0 if x < y else (1 if x == y else 2))
+    xs = x if is_sym(x) else z3.BitVecVal(x, 64); ys = y if is_sym(y) else z3.BitVecVal(y, 64)
+    k = ex.choose([xs < ys, xs == ys, xs > ys])
+    return ordering(k)
+
+
 @model('f64::min', 'f64::max')
 def m_minmax(ex, site, a):
     x, y = a[0], a[1]
@@ -383,11 +402,6 @@ def m_transcend(ex, site, a):
         return {'sqrt': math.sqrt, 'ln': math.log, 'log10': math.log10, 'exp': math.exp}[site.method](x)
     except (ValueError, OverflowError, ZeroDivisionError):
         return float('nan')
-
-
-@model('f64::total_cmp')
-def m_total_cmp(ex, site, a):
-    raise Unsupported('f64::total_cmp')
 
 
 @model('f64::signum')
